@@ -130,12 +130,16 @@ func (b *plainBackend) ReadToAt(ctx context.Context, p string, w io.Writer, off 
 func (b *plainBackend) StatFile(ctx context.Context, p string) (int64, error) {
 	return b.in.StatFile(ctx, p)
 }
-func (b *plainBackend) List(ctx context.Context, p string) ([]string, error) { return b.in.List(ctx, p) }
-func (b *plainBackend) Delete(ctx context.Context, p string) error            { return b.in.Delete(ctx, p) }
-func (b *plainBackend) Exists(ctx context.Context, p string) (bool, error)    { return b.in.Exists(ctx, p) }
-func (b *plainBackend) Close() error                                          { return nil }
-func (b *plainBackend) Type() string                                          { return "plain" }
-func (b *plainBackend) ConfigJSON() string                                    { return "{}" }
+func (b *plainBackend) List(ctx context.Context, p string) ([]string, error) {
+	return b.in.List(ctx, p)
+}
+func (b *plainBackend) Delete(ctx context.Context, p string) error { return b.in.Delete(ctx, p) }
+func (b *plainBackend) Exists(ctx context.Context, p string) (bool, error) {
+	return b.in.Exists(ctx, p)
+}
+func (b *plainBackend) Close() error       { return nil }
+func (b *plainBackend) Type() string       { return "plain" }
+func (b *plainBackend) ConfigJSON() string { return "{}" }
 func (b *plainBackend) ListObjects(ctx context.Context, p string) ([]storage.ObjectInfo, error) {
 	return b.in.ListObjects(ctx, p)
 }
@@ -185,8 +189,14 @@ type fileState struct {
 	receiptMark  bool // MarkCompacted has been applied for it
 	markSeq      int64
 	forgot       string // how a reconcile came to forget the receipt of a hub-compacted file
-	active       int  // hub-side Receive calls for this path currently running
-	overlap      bool // two Receive calls for this path overlapped in time at least once
+	active       int    // hub-side Receive calls for this path currently running
+	overlap      bool   // two Receive calls for this path overlapped in time at least once
+}
+
+// stall: the at-th hub file-system operation of one request takes d longer.
+type stall struct {
+	at, n int
+	d     time.Duration
 }
 
 type world struct {
@@ -221,15 +231,17 @@ type world struct {
 	hubTasks []*simrt.Task
 	hubOps   int
 	regCalls int
-	manifest map[string]string // hub final path -> sha registered
-	faults   int               // faults that actually fired
+	manifest map[string]string      // hub final path -> sha registered
+	faults   int                    // faults that actually fired
+	stalls   map[*simrt.Task]*stall // hub requests whose storage is slow once
 	crashes  int
 	synced   int
 	rows     map[string]string // final ledger states
 }
 
 func newWorld(p *Plan, root string, out *simkit.Outcome) *world {
-	w := &world{p: p, out: out, root: root, byPath: map[string]*fileState{}, manifest: map[string]string{}}
+	w := &world{p: p, out: out, root: root, byPath: map[string]*fileState{}, manifest: map[string]string{},
+		stalls: map[*simrt.Task]*stall{}}
 	w.spokeDir = filepath.Join(root, "spoke", "data")
 	w.hubDir = filepath.Join(root, "hub", "data")
 	w.spokeDBPath = filepath.Join(root, "spoke", "arc.db")
@@ -387,7 +399,9 @@ func (w *world) closeAll() {
 // ---------------------------------------------------------------------------
 // spoke files
 
-func (w *world) spokeAbs(f *fileState) string { return filepath.Join(w.spokeDir, filepath.FromSlash(f.path)) }
+func (w *world) spokeAbs(f *fileState) string {
+	return filepath.Join(w.spokeDir, filepath.FromSlash(f.path))
+}
 func (w *world) hubAbs(f *fileState) string {
 	return filepath.Join(w.hubDir, spokeID, filepath.FromSlash(f.path))
 }
@@ -854,7 +868,14 @@ func (t *transport) PutFile(ctx context.Context, hub string, e *edgesync.LedgerE
 	k := f.putCalls
 	f.putCalls++
 	fl := w.faultFor(f, k)
-	simrt.Event("PUT #%d call=%d off=%d fault=%s", f.idx, k, offset, fl.Kind)
+	timing := ""
+	if fl.SlowUs > 0 {
+		timing += fmt.Sprintf(" slow=%dus@%d", fl.SlowUs, fl.SlowAt)
+	}
+	if fl.Kind == "linger" && fl.CtxUs > 0 {
+		timing += fmt.Sprintf(" ctx=%dus", fl.CtxUs)
+	}
+	simrt.Event("PUT #%d call=%d off=%d fault=%s%s", f.idx, k, offset, fl.Kind, timing)
 	if fl.Kind != "none" {
 		w.faults++
 		simrt.Count("fault.put_"+strings.ReplaceAll(fl.Kind, "-", "_"), 1)
@@ -898,14 +919,24 @@ func (t *transport) PutFile(ctx context.Context, hub string, e *edgesync.LedgerE
 	path, sha, size := e.Path, e.SHA256, e.SizeBytes
 	var res *edgesync.PutResult
 	var err error
-	call := func() {
+	// rctx is the hub's request context: it ends when the hub notices that the
+	// client is gone, which for a request that is answered in time is never.
+	call := func(rctx context.Context) {
 		if f.active > 0 {
 			f.overlap = true
 			simrt.Count("probe.overlapping_receives", 1)
+			if f.active > 1 {
+				simrt.Count("probe.three_or_more_receives_same_path", 1)
+			}
 		}
 		f.active++
 		defer func() { f.active-- }()
-		res, err = w.receiver.Receive(context.Background(), spokeID, path, sha, size, offset, w.body(sent))
+		if fl.SlowUs > 0 && w.faultsOn {
+			t := simrt.CurTask()
+			w.stalls[t] = &stall{at: fl.SlowAt, d: time.Duration(fl.SlowUs) * time.Microsecond}
+			defer delete(w.stalls, t)
+		}
+		res, err = w.receiver.Receive(rctx, spokeID, path, sha, size, offset, w.body(sent))
 		oc := "error"
 		if err == nil {
 			oc = fmt.Sprintf("%s/%d", res.Outcome, res.BytesAccepted)
@@ -913,6 +944,9 @@ func (t *transport) PutFile(ctx context.Context, hub string, e *edgesync.LedgerE
 		} else {
 			oc += ": " + trimRoot(w.root, err.Error())
 			simrt.Count("probe.receive_error", 1)
+			if rctx.Err() != nil {
+				simrt.Count("probe.receive_ended_by_request_context", 1)
+			}
 		}
 		if offset > 0 {
 			simrt.Count("probe.receive_resume_offset", 1)
@@ -922,16 +956,23 @@ func (t *transport) PutFile(ctx context.Context, hub string, e *edgesync.LedgerE
 	if fl.Kind == "linger" {
 		// the client gives up (timeout) while the hub is still working on the request
 		delay := []time.Duration{0, 0, 100 * time.Microsecond, time.Millisecond, 10 * time.Millisecond, 100 * time.Millisecond}[fl.Xor%6]
+		rctx, cancel := context.Background(), context.CancelFunc(func() {})
+		if fl.CtxUs > 0 {
+			// the connection is torn down now; the hub's server learns it later
+			rctx, cancel = simrt.WithTimeout(rctx, time.Duration(fl.CtxUs)*time.Microsecond)
+			simrt.Count("fault.put_linger_disconnect_noticed", 1)
+		}
 		h := simrt.GoOn("hub-recv-linger", w.hubNode, func() {
+			defer cancel()
 			if delay > 0 {
 				simrt.Sleep(delay) // the request is still queued / the hub is slow
 			}
-			call()
+			call(rctx)
 		})
 		w.hubTasks = append(w.hubTasks, h)
 		return nil, errors.New("edgesync: file request: context deadline exceeded (Client.Timeout exceeded while awaiting headers)")
 	}
-	w.hubCall("hub-recv", call)
+	w.hubCall("hub-recv", func() { call(context.Background()) })
 	switch fl.Kind {
 	case "drop-after", "short-lost", "corrupt-lost":
 		return nil, errors.New("edgesync: file request: read tcp: connection reset by peer")
@@ -987,6 +1028,14 @@ func mapPut(res *edgesync.PutResult, err error, e *edgesync.LedgerEntry) (*edges
 func (w *world) fsInjector(op *simrt.FSOp) simrt.FSAction {
 	if !w.faultsOn || op.Node != w.hubNode {
 		return simrt.FSAction{}
+	}
+	if st := w.stalls[simrt.CurTask()]; st != nil {
+		st.n++
+		if st.n-1 == st.at {
+			simrt.Count("fault.hub_storage_stall", 1)
+			simrt.Event("HUB-STALL %s op=%d %dus", op.Kind, st.at, int64(st.d/time.Microsecond))
+			simrt.Sleep(st.d)
+		}
 	}
 	k := w.hubOps
 	w.hubOps++
